@@ -116,7 +116,7 @@ static int flag_sets (const Tgt *tg, unsigned *out, int max, int mode_c11, VhRng
 
 int main (int argc, char **argv)
 {
-  long c, total, N_single, N_pairs, N_random, N_special;
+  long c, total, N_single, N_pairs, N_random, N_special, N_regs;
   unsigned profile = GP_INT | GP_FLOAT | GP_ACC | GP_2D | GP_HINTS | GP_EXPLICIT_LS | GP_SPECIAL;
   int mode_c11;
   vh_parse_args (argc, argv);
@@ -132,7 +132,8 @@ int main (int argc, char **argv)
   N_random = vh_args.thorough ? 12000 : 1500;
   N_special = vh_args.thorough ? 1500 : 200;
   if (vh_args.limit > 0) N_random = vh_args.limit;
-  total = N_single + N_pairs + N_random + N_special;
+  N_regs = vh_args.thorough ? 4000 : 500;      /* many arrays (all general registers in use, callee-saved ones and rbp/r13 as pointers) with special loads */
+  total = N_single + N_pairs + N_random + N_special + N_regs;
   for (c = 0; c < total; c++) {
     ProgSpec ps; VhRng r; char desc[120]; int ok = 1, is_single = 0, ti;
     if (!vh_my_case (c)) continue;
@@ -140,7 +141,8 @@ int main (int argc, char **argv)
     if (c < N_single) { build_single (&ps, &single_forms[c], &r); is_single = 1; }
     else if (c < N_single + N_pairs) { long k = c - N_single; long idx = (long) ((vh_args.seed * 2654435761ULL + (uint64_t) k * 7919) % (uint64_t) n_pairs); build_pair (&ps, &pair_forms[idx], &r); }
     else if (c < N_single + N_pairs + N_random) { char nm[32]; snprintf (nm, sizeof nm, "rand_%ld", c); gen_init (&ps, nm); ok = gen_random (&ps, &r, profile & ~GP_SPECIAL, 2 + (int) vh_randn (&r, 16)); }
-    else { char nm[32]; snprintf (nm, sizeof nm, "spec_%ld", c); gen_init (&ps, nm); ok = gen_random (&ps, &r, profile, 1 + (int) vh_randn (&r, 6)); }
+    else if (c < N_single + N_pairs + N_random + N_special) { char nm[32]; snprintf (nm, sizeof nm, "spec_%ld", c); gen_init (&ps, nm); ok = gen_random (&ps, &r, profile, 1 + (int) vh_randn (&r, 6)); }
+    else { char nm[32]; snprintf (nm, sizeof nm, "regs_%ld", c); gen_init (&ps, nm); ok = gen_random (&ps, &r, profile | GP_SPECIAL | GP_2D, 10 + (int) vh_randn (&r, 14)); }
     snprintf (desc, sizeof desc, "asmdump %s", ps.name);
     vh_progress (c, desc);
     if (!ok || !gen_valid (&ps)) { vh_count ("cases.invalid_spec", 1); continue; }
